@@ -3,6 +3,8 @@
 from functools import partial
 from typing import TYPE_CHECKING, Any, Callable, Optional
 
+from . import _verif
+
 
 if TYPE_CHECKING:
     from cobra import Object
@@ -34,12 +36,16 @@ class HistoryManager:
 
         """
         self._history.append(operation)
+        _verif.point("ctx.register", manager=id(self), size=len(self._history))
 
     def reset(self) -> None:
         """Trigger executions for all items in the stack in reverse order."""
+        _verif.point("ctx.reset.begin", manager=id(self), size=len(self._history))
         while self._history:
             entry = self._history.pop()
+            _verif.point("ctx.undo", manager=id(self), size=len(self._history))
             entry()
+        _verif.point("ctx.reset.end", manager=id(self), size=len(self._history))
 
     def size(self) -> int:
         """Calculate number of operations on the stack."""
